@@ -232,6 +232,9 @@ static void op_gtxpowmod(const Case& c, Outcome& o) {
   if (x >= 0) { __int128 q = 1; bool f2 = true; for (glm::uint i = 0; i < y; ++i) { q *= x; if (q > 4294967295ll) { f2 = false; break; } } if (f2) { glm::uint g = glm::pow((glm::uint)x, y); o.res(g); o.exp((uint64_t)q); if (g != (glm::uint)q) { o.bad(2, "gtx pow(uint,uint): not x^y"); return; } } }
   // mod: mathematical (non-negative) remainder for y > 0
   if (y > 0 && y < 100000) { int g = glm::mod(x, (int)y); int r = ((x % (int)y) + (int)y) % (int)y; o.res((uint32_t)g); o.exp((uint32_t)r); if (g != r) { o.bad(3, "gtx mod(int,int)"); return; }
+    // negative divisor: x - y*floor(x/y), the result has the sign of y (documented as 'Modulus. Returns x - y * floor(x / y)')
+    if (x > -1000000 && x < 1000000) { const int ny = -(int)y; long long q = (long long)x / ny; if ((long long)x % ny != 0 && ((x < 0) != (ny < 0))) --q; int want = (int)((long long)x - (long long)ny * q); int gn = glm::mod(x, ny);
+      if (gn != want) { o.res((uint32_t)gn); o.exp((uint32_t)want); o.bad(7, "gtx mod(int,int) with a negative divisor is not x - y*floor(x/y)"); return; } }
     if (x >= 0) { glm::uint gu = glm::mod((glm::uint)x, y); if (gu != (glm::uint)x % y) { o.res(gu); o.exp((glm::uint)x % y); o.bad(4, "gtx mod(uint,uint)"); return; } } }
   // factorial up to 12
   if (x >= 0 && x <= 12 && y == 0) { int64_t f = 1; for (int i = 2; i <= x; ++i) f *= i; int g = glm::factorial(x); o.res((uint32_t)g); o.exp((uint64_t)f); if (g != f) { o.bad(5, "gtx factorial"); return; }
